@@ -325,7 +325,8 @@ def err_kind(e):
 
 # ------------------------------------------------------------- the property, evaluated directly
 def table_problems(impl):
-    """unique case-insensitive names, keys are the normalised names, tags point into the table."""
+    """unique case-insensitive names, keys are the normalised names, tags point into the table.
+    Returns (code, identity, text); identity does not depend on where the table currently hangs."""
     out = []
     tables = [("slot%d" % i, n.symbol_table) for i, n in enumerate(impl.nodes) if n.symbol_table is not None]
     tables += [("det%d" % j, t) for j, t in enumerate(impl.det)]
@@ -333,15 +334,16 @@ def table_problems(impl):
         # pylint: disable=protected-access
         lowered = [s.name.lower() for s in t._symbols.values()]
         if len(set(lowered)) != len(lowered):
-            out.append(("duplicate-name", "%s holds two symbols whose names differ at most in case: %s"
-                        % (label, sorted(s.name for s in t._symbols.values()))))
+            names = sorted(s.name for s in t._symbols.values())
+            out.append(("duplicate-name", (id(t), tuple(names)),
+                        "%s holds two symbols whose names differ at most in case: %s" % (label, names)))
         for k, s in t._symbols.items():
             if k != s.name.lower():
-                out.append(("stale-key", "%s: key %r holds symbol named %r" % (label, k, s.name)))
+                out.append(("stale-key", (id(t), k, s.name), "%s: key %r holds symbol named %r" % (label, k, s.name)))
         for tag, s in t._tags.items():
             if not any(s is x for x in t._symbols.values()):
-                out.append(("stale-tag", "%s: tag %r refers to symbol %r which is not in the table"
-                            % (label, tag, s.name)))
+                out.append(("stale-tag", (id(t), tag, id(s)),
+                            "%s: tag %r refers to symbol %r which is not in the table" % (label, tag, s.name)))
     return out
 
 
@@ -420,6 +422,11 @@ def merge_problems(info, keys_before):
     for s in after:
         if not any(s is x for x in info["self_before"] + info["other_before"]):
             out.append(("symbol-invented", "symbol %r appeared from nowhere" % s.name))
+    from psyclone.psyir.symbols import ContainerSymbol as _Container
+    for s in info["other_before"]:
+        if any(s is k for k in skip) and count(s) > 0 and not any(s is x for x in info["self_before"]):
+            out.append(("skipped-symbol-added:" + ("container" if isinstance(s, _Container) else "non-container"),
+                        "symbol %r is in symbols_to_skip but was merged" % s.name))
     for s in info["self_before"] + info["other_before"]:
         old = info["names_before"][id(s)]
         if s.name == old:
@@ -461,7 +468,8 @@ def merge_reject_key(info, what, exc_text):
                     causes.add("skipped-container")
                 elif k.is_import:
                     causes.add("skipped-import")
-        cause = "+".join(sorted(causes)) or "other"
+        cause = "skipped-import" if "skipped-import" in causes else (
+            "skipped-container" if "skipped-container" in causes else "other")
         return "merge/container-pass/state-changed-before-raise:" + cause
     return "merge/%s/state-changed-before-raise:%s" % (pas, exc)
 
@@ -506,10 +514,10 @@ def run_history(ctx, nslots, ops, record=True):
                 key = "%s/%s-changed-before-raise" % (site, what)
             problems.append((idx, key, "rejected operation (%s) changed the state (%s)" % (res[2], what)))
         now = table_problems(impl)
-        for code, txt in now:
-            if (code, txt) not in known_table_problems:      # attribute it to the operation that broke it
+        for code, ident, txt in now:
+            if (code, ident) not in known_table_problems:    # attribute it to the operation that broke it
                 problems.append((idx, "%s/%s" % (site, code), txt))
-        known_table_problems = set(now)
+        known_table_problems = {(code, ident) for code, ident, _ in now}
         if res[0] != "err":
             if op[0] == "lookup":
                 exp = expected_lookup(impl, op[1], op[2])
@@ -786,6 +794,9 @@ class Gen:
         tref = self.pick_tref(impl, prefer_det)
         if kind == "add":
             spec = gen_spec(rng, containers)
+            if self.flavour == "merge" and rng.random() < 0.45:
+                # renameable locals: merges then resolve clashes by renaming instead of refusing
+                spec = (rng.choice(["KData", "KData", "KGeneric", "KRoutine"]), False, ("IAuto",))
             if self.flavour == "intrinsic" and rng.random() < 0.6:
                 spec = (rng.choice(["KGeneric", "KGeneric", "KRoutine", "KData", "KIntrinsic"]), False, ("IUnres",))
             tag = rng.choice(TAGS) if rng.random() < 0.2 else ""
@@ -816,7 +827,11 @@ class Gen:
                 return ("lookup_tag", tref, rng.choice(intags))
             return ("lookup_tag", tref, rng.choice(TAGS))
         if kind == "rename":
-            return ("rename", tref, self.pick_sid(impl, tref), self.name())
+            t = impl.table(tref)
+            nm = self.name()
+            if t is not None and t.symbols and rng.random() < 0.3:
+                nm = rng.choice(t.symbols).name.swapcase()     # differs only in case from a name in use
+            return ("rename", tref, self.pick_sid(impl, tref), nm)
         if kind == "remove":
             return ("remove", tref, self.pick_sid(impl, tref))
         if kind == "swap":
@@ -909,10 +924,26 @@ def targeted_histories():
     out.append((1, [("add", ("slot", 0), "sin", ("KIntrinsic", False, ("ICommon",)), ""), ("new_table",),
                     ("add", ("det", 0), "first", d, ""), ("add", ("det", 0), "SIN", ("KIntrinsic", False, ("ICommon",)), ""),
                     ("merge", ("slot", 0), 0, [])]))
+    # merge: a skipped ContainerSymbol is merged anyway (no clash at all)
+    out.append((1, [("add", ("slot", 0), "a", d, ""), ("new_table",), ("add", ("det", 0), "m", c, ""),
+                    ("add", ("det", 0), "b", d, ""), ("merge", ("slot", 0), 0, [1]), ("lookup", ("slot", 0), "m")]))
+    # merge: a skipped plain symbol must stay out
+    out.append((1, [("add", ("slot", 0), "a", d, ""), ("new_table",), ("add", ("det", 0), "b", d, ""),
+                    ("add", ("det", 0), "c", d, ""), ("add", ("det", 0), "A", ("KData", False, ("IArg",)), ""),
+                    ("merge", ("slot", 0), 0, [1, 3]), ("lookup", ("slot", 0), "b"), ("lookup", ("slot", 0), "c")]))
+    # merge: specialise, then the dry-run rename to "" hits a symbol whose name is empty (KeyError)
+    out.append((1, [("add", ("slot", 0), "sin", un, ""), ("add", ("slot", 0), "q", d, ""), ("rename", ("slot", 0), 1, ""),
+                    ("add", ("slot", 0), "y", d, ""), ("new_table",), ("add", ("det", 0), "sin", un, ""),
+                    ("add", ("det", 0), "Y", d, ""), ("merge", ("slot", 0), 0, [])]))
     # merge with renames on both sides, wildcard containers, nested scopes
     out.append((3, [("add", ("slot", 2), "a_1", d, ""), ("add", ("slot", 1), "A", d, ""), ("add", ("slot", 0), "a", ("KData", False, ("IArg",)), ""),
                     ("new_table",), ("add", ("det", 0), "A", d, "t1"), ("add", ("det", 0), "a_2", d, ""), ("add", ("det", 0), "Mod1", ("KContainer", True, ("IOther",)), ""),
                     ("add", ("slot", 0), "mod1", c, ""), ("merge", ("slot", 0), 0, []), ("lookup", ("slot", 0), "A_3"), ("lookup", ("slot", 0), "a")]))
+    # rename / add / swap against a name that differs only in case
+    out.append((2, [("add", ("slot", 0), "a", d, "t1"), ("add", ("slot", 0), "b", d, ""), ("rename", ("slot", 0), 1, "A"),
+                    ("rename", ("slot", 0), 1, "B"), ("rename", ("slot", 0), 0, "A"), ("add", ("slot", 0), "B", g, ""),
+                    ("add", ("slot", 1), "B", g, ""), ("rename", ("slot", 1), 2, "b"), ("lookup", ("slot", 0), "b"),
+                    ("swap", ("slot", 1), 2, "b", g), ("rename", ("slot", 0), 1, "c"), ("lookup_tag", ("slot", 0), "t1")]))
     # suffix chains and case
     out.append((2, [("add", ("slot", 1), "a", d, ""), ("add", ("slot", 0), "A_1", d, ""), ("new_symbol", ("slot", 0), "A", "", False, d, True),
                     ("new_symbol", ("slot", 0), "a", "", True, d, True), ("new_symbol", ("slot", 0), "a", "", True, d, True),
@@ -965,6 +996,23 @@ def replay_text(nslots, ops, idx):
                    "see Impl._apply for the mapping of each tuple to the SymbolTable method"}
 
 
+def replay(ctx, path):
+    """./check C16 --replay <file>: re-run the history of a replay file (or of a known_findings
+    witness) on the implementation and print what the direct evaluation of the property reports."""
+    w = json.loads(Path(path).read_text())
+    w = w.get("witness", w)
+    ops = [normalise_op(o) for o in witness_ops(w)]
+    steps, problems = run_history(ctx, w["nslots"], ops)
+    for i, (op, res, _) in enumerate(steps):
+        print("%2d %s -> %s" % (i, op, res))
+    print("final state:", steps[-1][2] if steps else None)
+    for idx, key, what in problems:
+        print("PROPERTY FAILS at step %d [%s]: %s" % (idx, key, what))
+    import shutil
+    shutil.rmtree(ctx.scratch, ignore_errors=True)
+    return 1 if problems else 0
+
+
 # ---------------------------------------------------------------------------------------- run
 def run(ctx):
     import importlib.util
@@ -1005,7 +1053,7 @@ def run(ctx):
     # 2. histories
     rng = ctx.rng("gen")
     histories = [(n, [normalise_op(o) for o in ops]) for n, ops in targeted_histories()]
-    n_random = ctx.pick(500, 12000)
+    n_random = ctx.pick(220, 8000)
     for i in range(n_random):
         flavour = rng.choices(["mixed", "merge", "fresh", "intrinsic"], weights=[5, 3, 2, 2])[0]
         nslots = rng.choices([1, 2, 3, 4], weights=[3, 4, 4, 1])[0]
@@ -1016,9 +1064,29 @@ def run(ctx):
     for nslots, ops in histories:
         steps, problems = run_history(ctx, nslots, ops)
         nontrivial = False
+        prev_snap = None
         for (op, res, snap) in steps:
             ctx.hist("op", op[0])
             ctx.hist("result", res[0] if res[0] != "err" else res[1])
+            if op[0] == "merge" and res[:2] != ("err", "ENoTable"):
+                if res[0] != "err":
+                    renamed = prev_snap is not None and any(
+                        a[0] != b[0] for a, b in zip(prev_snap["heap"], snap["heap"]))
+                    ctx.hist("merge", "completed, renamed a symbol" if renamed else "completed, no rename")
+                else:
+                    ctx.hist("merge", "raised %s, state %s" % (res[1], "unchanged" if prev_snap is not None and
+                                                                prev_snap["heap"] == snap["heap"] and prev_snap["slots"] == snap["slots"]
+                                                                else "changed or other table consumed"))
+            if op[0] == "lookup" and res[0] == "sym" and op[1][0] == "slot" and prev_snap is not None:
+                own = prev_snap["slots"][op[1][1]]
+                in_own = own is not None and any(sid == res[1] for _, sid in own[0])
+                shadows = sum(1 for t in prev_snap["slots"][op[1][1]:] if t is not None and
+                              any(k == op[2].lower() for k, _ in t[0]))
+                ctx.hist("lookup_answer", ("own table" if in_own else "enclosing table") +
+                         (", shadowing an outer symbol" if shadows > 1 else ""))
+            if op[0] == "next_name" and res[0] == "name":
+                ctx.hist("fresh_name", "suffix added" if res[1] != (op[2] or "psyir_tmp") else "root free")
+            prev_snap = snap
             if res[0] != "err":
                 if op[0] == "merge" or op[0] == "rename":
                     nontrivial = True
@@ -1052,7 +1120,7 @@ def run(ctx):
 
     # 4. model = implementation
     header = HEADER + "\n" + POOL.header()
-    failing = ctx.coq_eval_failing(header, "wcase", "check_wcase", cases, shard=ctx.pick(60, 100))
+    failing = ctx.coq_eval_failing(header, "wcase", "check_wcase", cases, shard=ctx.pick(80, 100))
     ctx.cov["disagreements_checked"] = len(failing)
     ctx.log("histories=%d steps=%d model/impl disagreements=%d property failures on impl=%d (keys: %s)"
             % (len(cases), ctx.cov["evaluations"], len(failing), len(all_problems), sorted(seen)))
